@@ -3,6 +3,7 @@ package props
 import (
 	"context"
 	"fmt"
+	"io"
 	"strconv"
 	"strings"
 	"sync"
@@ -37,6 +38,12 @@ func c19CheckFamily(r *fw.Run, key string, fam []c19Member, ops []string) bool {
 		}
 	}
 	return true
+}
+
+// msgState is everything a caller can see of a message: its encoding and its fields (a Retry of
+// -1 and of 0 encode alike but are different values of the caller's struct).
+func msgState(m *sse.Message) string {
+	return fmt.Sprintf("%q id=%v/%q type=%v/%q retry=%d", m.String(), m.ID.IsSet(), m.ID.String(), m.Type.IsSet(), m.Type.String(), int64(m.Retry))
 }
 
 func TestC19(t *testing.T) {
@@ -234,7 +241,7 @@ func TestC19(t *testing.T) {
 				b.Model.HasID, b.Model.ID = true, "manual"+strconv.Itoa(q)
 			}
 			pool[q] = b
-			enc[q] = b.Msg.String()
+			enc[q] = msgState(b.Msg)
 		}
 		r.Begin(key, fmt.Sprintf("%s pool=%d cap=%d", kind, npool, capN))
 		times := 2 + rng.IntN(3*capN+4)
@@ -266,12 +273,12 @@ func TestC19(t *testing.T) {
 				break
 			}
 			for x := range pool {
-				if pool[x].Msg.String() != enc[x] || pool[x].Msg.ID.IsSet() != pool[x].Model.HasID {
+				if msgState(pool[x].Msg) != enc[x] || pool[x].Msg.ID.IsSet() != pool[x].Model.HasID {
 					tags := []string{"put_mutates_argument"}
 					if x != q {
 						tags = []string{"put_mutates_earlier_message"}
 					}
-					r.Violation(key, tags, map[string]any{"kind": kind, "history": hist, "message": x, "before": fw.Q(fw.Trunc(enc[x], 300)), "after": fw.Q(fw.Trunc(pool[x].Msg.String(), 300))}, "C19: after Put #%d (of pool[%d]) pool[%d] encodes differently", k+1, q, x)
+					r.Violation(key, tags, map[string]any{"kind": kind, "history": hist, "message": x, "before": fw.Q(fw.Trunc(enc[x], 300)), "after": fw.Q(fw.Trunc(msgState(pool[x].Msg), 300))}, "C19: after Put #%d (of pool[%d]) pool[%d] is not what it was (encoding or fields)", k+1, q, x)
 					bad = true
 					break
 				}
@@ -296,7 +303,7 @@ func TestC19(t *testing.T) {
 				e := got.String()
 				pool[q].Msg.AppendComment("touch" + strconv.Itoa(k))
 				pool[q].Model.Append(true, "touch"+strconv.Itoa(k))
-				enc[q] = pool[q].Msg.String()
+				enc[q] = msgState(pool[q].Msg)
 				if got.String() != e {
 					r.Violation(key, []string{"stored_copy_aliases_argument"}, map[string]any{"kind": kind, "history": hist}, "C19: appending to the caller's message changed the copy held by the replayer")
 					bad = true
@@ -304,7 +311,7 @@ func TestC19(t *testing.T) {
 				// and the other way round: appending to the copy Put returned leaves the caller's message alone
 				got.AppendData("copy-side" + strconv.Itoa(k))
 				rets[len(rets)-1].enc = got.String()
-				if pool[q].Msg.String() != enc[q] {
+				if msgState(pool[q].Msg) != enc[q] {
 					r.Violation(key, []string{"returned_copy_aliases_argument"}, map[string]any{"kind": kind, "history": hist, "before": fw.Q(fw.Trunc(enc[q], 300)), "after": fw.Q(fw.Trunc(pool[q].Msg.String(), 300))}, "C19: appending to the message returned by Put changed the caller's message")
 					bad = true
 				}
@@ -329,11 +336,13 @@ func TestC19(t *testing.T) {
 		}
 		key := fw.Key("D", i)
 		rng := r.Rand("D", i)
-		kind := kinds[rng.IntN(len(kinds))]
+		kind := append([]string{"none"}, kinds...)[rng.IntN(len(kinds)+1)]
 		auto := strings.HasSuffix(kind, ":auto")
+		retry := []time.Duration{0, -1, -5 * time.Second, 1500 * time.Millisecond, 0}[rng.IntN(5)]
+		withType := rng.IntN(3) == 0
 		workers := 1 + rng.IntN(4)
 		per := 1 + rng.IntN(4)
-		r.Begin(key, fmt.Sprintf("%s workers=%d per=%d", kind, workers, per))
+		r.Begin(key, fmt.Sprintf("%s workers=%d per=%d retry=%d type=%v", kind, workers, per, retry, withType))
 		var findings []string
 		func() {
 			defer func() {
@@ -348,8 +357,10 @@ func TestC19(t *testing.T) {
 				} else {
 					inner, _ = sse.NewValidReplayer(time.Hour, auto)
 				}
-				rec := &mon.RecReplayer{Inner: inner}
-				joe := &sse.Joe{Replayer: rec}
+				joe := &sse.Joe{}
+				if kind != "none" {
+					joe.Replayer = &mon.RecReplayer{Inner: inner}
+				}
 				cl := &mon.RecClient{Name: "s"}
 				ctx, cancel := context.WithCancel(context.Background())
 				done := make(chan error, 1)
@@ -360,7 +371,11 @@ func TestC19(t *testing.T) {
 				if !auto {
 					msg.ID = sse.ID("manual")
 				}
-				before := msg.String()
+				msg.Retry = retry
+				if withType {
+					msg.Type = sse.Type("ty")
+				}
+				before := msgState(msg)
 				var wg sync.WaitGroup
 				for w := 0; w < workers; w++ {
 					wg.Add(1)
@@ -375,8 +390,8 @@ func TestC19(t *testing.T) {
 				}
 				wg.Wait()
 				synctest.Wait()
-				if msg.String() != before || msg.ID.IsSet() == auto {
-					findings = append(findings, fmt.Sprintf("the published message changed: %q -> %q", before, msg.String()))
+				if msgState(msg) != before || msg.ID.IsSet() == auto {
+					findings = append(findings, fmt.Sprintf("the published message changed: %s -> %s", before, msgState(msg)))
 				}
 				var ids []string
 				for _, c := range cl.Calls() {
@@ -404,6 +419,70 @@ func TestC19(t *testing.T) {
 		r.Eval(fw.Hash("D", kind, fmt.Sprint(workers, per)), true)
 		if len(findings) > 0 {
 			r.Violation(key, []string{"republish_through_joe"}, map[string]any{"kind": kind, "workers": workers, "per_worker": per, "findings": findings}, "C19: %s", findings[0])
+		}
+	}
+	// (E) one message used by several goroutines at once, each publishing it to its own replayer,
+	// cloning and encoding it: none of these may write to it (real goroutines, race detector)
+	ne := r.N(600, 12000)
+	for i := 0; i < ne; i++ {
+		if !r.Mine("E", i) {
+			continue
+		}
+		key := fw.Key("E", i)
+		rng := r.Rand("E", i)
+		msg := &sse.Message{}
+		nl := 1 + rng.IntN(6)
+		for k := 0; k < nl; k++ {
+			if rng.IntN(4) == 0 {
+				msg.AppendComment("c" + strconv.Itoa(k))
+			} else {
+				msg.AppendData("d" + strconv.Itoa(k))
+			}
+		}
+		if rng.IntN(2) == 0 {
+			msg.Type = sse.Type("ty")
+		}
+		before := msgState(msg)
+		workers := 2 + rng.IntN(5)
+		if i%64 == 0 {
+			r.Begin(key, fmt.Sprintf("shared message, %d goroutines", workers))
+		}
+		var wg sync.WaitGroup
+		errs := make([]string, workers)
+		for w := 0; w < workers; w++ {
+			wg.Add(1)
+			go func() {
+				defer wg.Done()
+				var rp sse.Replayer
+				if w%2 == 0 {
+					rp, _ = sse.NewFiniteReplayer(2+w, true)
+				} else {
+					rp, _ = sse.NewValidReplayer(time.Hour, true)
+				}
+				for k := 0; k < 4; k++ {
+					got, err := rp.Put(msg, []string{"t"})
+					if err != nil || got == nil || got.ID.String() != strconv.Itoa(k) {
+						errs[w] = fmt.Sprintf("Put #%d returned (%v, %v)", k+1, got, err)
+						return
+					}
+					c := msg.Clone()
+					c.AppendData("own")
+					_ = msg.String()
+					msg.WriteTo(io.Discard)
+				}
+			}()
+		}
+		wg.Wait()
+		r.Count("shared_message_executions", 1)
+		r.Eval(fw.Hash("E", strconv.Itoa(i)), true)
+		for _, e := range errs {
+			if e != "" {
+				r.Violation(key, []string{"shared_message_put_wrong"}, map[string]any{"workers": workers}, "C19: %s", e)
+				break
+			}
+		}
+		if msgState(msg) != before {
+			r.Violation(key, []string{"put_mutates_argument"}, map[string]any{"before": before, "after": msgState(msg)}, "C19: a message used concurrently by %d goroutines (Put, Clone, encode) changed", workers)
 		}
 	}
 }
